@@ -9,7 +9,7 @@ RULE = ("same executions as C05 (tree bandits stand-alone and inside the wrapper
         "published rule recomputed from the ledger (T-HOO depth bound; HCT/VHCT leaf and T >= ceil(tau)); "
         "non-trivial = >= 50 rounds, >= 5 expansions judged, tree depth >= 2")
 ASSUMPTIONS = [
-    "HCT/VHCT parameter band c1*delta <= 1/2; outside it the expansion decision is not judged",
+    "HCT/VHCT expansion decisions are judged in the rounds whose t+ satisfies c1*delta/t+ <= 1/2 (the code's clamp min(1/2,.) and the published min(1,.) coincide there); c1*delta > 1/2 only excludes the rounds with t+ = 1",
     "two admissible conventions for t+ (round counter before/after increment) and, for VHCT, for the variance in tau (before/after the current reward); the decision is accepted if it matches any of them",
     "threshold comparisons within rel. 1e-9 of the boundary accept both outcomes",
     "the expansion of the root in the constructor is part of the published initialisation, not a round",
